@@ -97,7 +97,7 @@ Theorem lower_gen_is_spec : forall h,
   (forall r, match h with HRet r' _ _ => r' = r | HBind (RvShape r') _ _ _ _ => r' = r | _ => False end -> In r all_rshapes) ->
   lower gen_ret h = lower spec_ret h.
 Proof.
-  intros h H. destruct h as [p|r src dst|v tmp dst ss sr]; simpl; auto.
+  intros h H. destruct h as [p|r src dst|v tmp dst ss sr|p]; simpl; auto.
   - rewrite (gen_ret_is_spec r (H r eq_refl)). reflexivity.
   - destruct v as [| |r]; auto. rewrite (gen_ret_is_spec r (H r eq_refl)). reflexivity.
 Qed.
